@@ -9,6 +9,10 @@ from . import base_namespace
 from . import packet
 
 default_logger = logging.getLogger('socketio.client')
+
+# key under which the id counter is kept in each dictionary of callbacks; it
+# must not be a value that the server could send as an acknowledgement id
+_ack_counter = object()
 reconnecting_clients = []
 
 
@@ -277,8 +281,8 @@ class BaseClient:
         """Generate a unique identifier for an ACK packet."""
         namespace = namespace or '/'
         if namespace not in self.callbacks:
-            self.callbacks[namespace] = {0: itertools.count(1)}
-        id = next(self.callbacks[namespace][0])
+            self.callbacks[namespace] = {_ack_counter: itertools.count(1)}
+        id = next(self.callbacks[namespace][_ack_counter])
         self.callbacks[namespace][id] = callback
         return id
 
